@@ -67,3 +67,28 @@ reg("C09",
     "build-time: every directed graph with a cycle is refused. non-trivial = schedule with >=2 nodes in flight, a failure next to other nodes, or a deactivation",
     "N<=3: RES* x SEQm x mc{1,2,3} x fail{none,1,2}; N=4: shapes <=4 edges x 5 resource patterns x mc{1,2} x fail{none,1}; digraphs on <=3 nodes; ties<=1",
     "N<=3 unbounded ties; N=4 all shapes, fail{none,1,2}; digraphs on <=4 nodes")
+
+reg("C07",
+    "all labelled shapes N<=5 x priority vectors (ALL vectors over {-1,0,2} for N<=4; one-hot and menu vectors for N=5) x ways of obtaining the graph {dag.graph_ids, executor().graph, "
+    "executor with each single target / root / exclude, deepcopy, after config_from_dict} x EVERY iteration order of the sets built inside tawazi._dag.digraph while the DAG is constructed "
+    "(owned `set`) x 4 real PYTHONHASHSEEDs (every case is evaluated in 4 worker processes with different hash seeds). Oracle: table = own + sum over distinct descendants; with max_concurrency=1 and no "
+    "ties the entry order equals the reference greedy order (whole DAG, single-target and single-root executors, after reconfiguration). non-trivial = case with a descendant reachable by two paths, or with a unique mc=1 order of >=2 nodes",
+    "N<=4 all shapes x PRIO*; N=5 shapes with 4..6 edges x 6 vectors; 4 hash seeds",
+    "N<=4 as quick; N=5 all 1024 shapes x 13 vectors; 4 hash seeds")
+INFO["C07"]["hash_seeds"] = 4
+
+reg("C12",
+    "all labelled shapes x program variants {plain, a node whose only input is a constant, setup nodes fresh / pre-computed} x alias forms {id, node reference, unique tag, tag shared by two nodes, "
+    "tag equal to another node's id} x EVERY triple (R, X, T), each component None or a subset (X restricted to the part selected by R, as the quantifier says), plus unknown aliases. "
+    "Oracle: reference closure in plain set algebra vs set(executor.graph.nodes), entry counters and the returned tuple; ValueError with zero entries exactly where the reference demands it. "
+    "states = selections evaluated. non-trivial = a selection with >= 2 components given that is run or refused",
+    "N<=3 all subsets; N=4 components of size <=2, id aliases",
+    "N<=4 all subsets and all alias forms; N=5 shapes <=5 edges, components of size <=1")
+
+reg("C13",
+    "all labelled shapes x EVERY placement of debug flags (valid ones are executed, invalid ones must be refused by the builder) x RUN_DEBUG_NODES off / on x whole-DAG call and EVERY selection (R, X, T) with "
+    "bounded component size, including selections that name debug nodes; setup() on DAGs whose setup nodes have debug nodes downstream. Oracle: flag off -> no debug node entered in any mode; flag on + whole call -> each once; "
+    "flag on + selection -> non-debug nodes exactly the reference closure, every pulled-in debug node received real values; returned values of non-debug nodes as the reference. "
+    "non-trivial = an executed selection on a DAG that has debug nodes, or a placement the builder must refuse",
+    "N<=3: components <=2; N=4: components <=1",
+    "N<=4: components <=2")
